@@ -73,6 +73,7 @@ def run(chk, b, tier):
         chk.bump("distinct_values", r["distinct"])
         chk.bump("rounding_ties_probed", r["ties"])
         chk.bump("monotone_adjacent_pairs", r["monotone_pairs"])
+        chk.cov["goroutines_formatting_concurrently_per_driver"] = r.get("concurrent_judges", 1)
         for k, v in r["per_prefix"].items():
             per_prefix[k] = per_prefix.get(k, 0) + v
         for v in r["violations"] or []:
